@@ -1,5 +1,12 @@
 package route
 
+import (
+	"fmt"
+	"net/url"
+
+	"github.com/gobwas/glob"
+)
+
 type Cmd string
 
 const (
@@ -16,4 +23,28 @@ type RouteDef struct {
 	Weight  float64           `json:"weight"`
 	Tags    []string          `json:"tags,omitempty"`
 	Opts    map[string]string `json:"opts,omitempty"`
+}
+
+// Validate reports whether a 'route add' definition can be added to a
+// routing table. It performs the same checks as the table itself so that
+// a generator of route commands can drop a definition which would
+// otherwise make the whole configuration fail.
+func (d *RouteDef) Validate() error {
+	if d.Cmd != RouteAddCmd {
+		return nil
+	}
+	if d.Src == "" {
+		return errInvalidPrefix
+	}
+	if d.Dst == "" {
+		return errInvalidTarget
+	}
+	if _, err := url.Parse(d.Dst); err != nil {
+		return fmt.Errorf("route: invalid target. %s", err)
+	}
+	_, path := hostpath(d.Src)
+	if _, err := glob.Compile(path); err != nil {
+		return err
+	}
+	return nil
 }
